@@ -461,10 +461,19 @@ def rule_entry(ctx):
   runl = []
   for i_ in w.loop_info.values():
     for vis in i_["visits"]:
-      if isinstance(vis["iter"], Seq) or vis["iter"] is None or not from_tests(w, as_poly(vis["iter"])):
+      if isinstance(vis["iter"], Seq) or vis["iter"] is None:
+        continue
+      # the list the loop walks: itself, its index range or its enumeration
+      lst = as_poly(vis["iter"])
+      la_ = lst.as_atom()
+      if la_ is not None and la_.kind == "enumerate" and len(la_.args) == 1:
+        lst = as_poly(la_.args[0])
+      elif la_ is not None and la_.kind == "range" and len(la_.args) == 1 and as_poly(la_.args[0]).as_atom() is not None and as_poly(la_.args[0]).as_atom().kind == "len":
+        lst = as_poly(as_poly(la_.args[0]).as_atom().args[0])
+      if not from_tests(w, lst):
         continue
       runl.append(i_)
-      elt = sym.mk("idx", as_poly(vis["iter"]), as_poly(vis["k"]))
+      elt = sym.mk("idx", lst, as_poly(vis["k"]))
       for kind, val, s_, since, v2 in i_["body_paths"]:
         if v2 is not vis:
           continue
